@@ -22,9 +22,12 @@ Select(offer, required) ==
 Routed(offer, required, cred) ==
     LET m == Select(offer, required) IN
     IF m = 255 THEN FALSE ELSE IF ~required THEN TRUE ELSE (m = 2 /\ cred \in ValidCreds)
-NegCases == {<<o, c>> \in OfferSeqs \X Creds : TRUE}
+(* the command that follows the negotiation: CONNECT and UDP ASSOCIATE are served (the latter hands out a datagram relay), BIND never is *)
+Cmds == {"connect", "udp", "bind"}
+RoutedCmd(offer, required, cred, cmd) == cmd # "bind" /\ Routed(offer, required, cred)
+NegCases == {<<o, c, m>> \in OfferSeqs \X Creds \X Cmds : TRUE}
 (* the invariant the table itself must satisfy: with authentication required nothing is routed without valid credentials *)
-NegSound == \A x \in NegCases : Routed(x[1], TRUE, x[2]) => x[2] \in ValidCreds
+NegSound == \A x \in NegCases : RoutedCmd(x[1], TRUE, x[2], x[3]) => x[2] \in ValidCreds
 
 (* ---------- (2) verdict cache ---------- *)
 CONSTANTS Pairs, MaxSteps, CacheOn
